@@ -351,7 +351,7 @@ func c18PoolStates(s *Server) []*lua.LState {
 }
 
 func checkC18Box(job *Job, res *Result) {
-	res.Rule = "explicit enumeration: (1) everything reachable from the globals table of each pooled Lua state (tables, metatables incl. the string metatable, function environments, upvalues) - names subset of the documented allow-list, no Go function of a forbidden library; (2) assignment to 20 new global names; (3) all sequences of <= 3 commands over {EVAL ok, EVAL syntax error, EVAL raising, EVALSHA unknown, SCAN WHEREEVAL, SCRIPT LOAD, EVALRO ok, SCAN WHEREEVAL indexing a missing field, SCAN WHEREEVAL raising} followed by an inspection of every pooled state; distinct = distinct reachable paths + sequences"
+	res.Rule = "explicit enumeration: (1) everything reachable from the globals table of each pooled Lua state (tables, metatables incl. the string metatable, function environments, upvalues) - names subset of the documented allow-list, no Go function of a forbidden library; (2) assignment to 20 new global names; (3) all sequences of <= 3 commands over {EVAL ok, EVAL syntax error, EVAL raising, EVALSHA unknown, SCAN WHEREEVAL, SCRIPT LOAD, EVALRO ok, SCAN WHEREEVAL indexing a missing field, SCAN WHEREEVAL raising, EVAL / EVALRO / EVALNA writing into their empty KEYS / ARGV, EVAL parking its arguments in a library table / in the array part of _G / in a replaced global} followed by an inspection of every pooled state; distinct = distinct reachable paths + sequences"
 	if job.Shard != 0 && job.NShards > 1 && job.Replay == nil {
 		// sequences are sharded, the walk runs in shard 0
 	}
@@ -367,6 +367,16 @@ func checkC18Box(job *Job, res *Result) {
 		// filter scripts that fail on an object (indexing a missing field / raising)
 		{"SCAN", "k1", "WHEREEVAL", "return FIELDS.nosuch.x == 1", "0", "IDS"},
 		{"SCAN", "k1", "WHEREEVAL", "error('filter boom ' .. ID)", "0", "IDS"},
+		// scripts that write into their (empty) KEYS / ARGV tables
+		{"EVAL", "KEYS[1] = 'secretkey'; ARGV[1] = 'secretarg'; table.insert(ARGV, 'secretarg'); return 1", "0"},
+		{"EVALRO", "KEYS[1] = 'secretkey'; ARGV[1] = 'secretarg'; return 1", "0"},
+		{"EVALNA", "table.insert(KEYS, 'secretkey'); table.insert(ARGV, 'secretarg'); return 1", "0"},
+		// scripts that park their arguments in a library table
+		{"EVAL", "string.stash = KEYS[1]; math.stash = ARGV; return 1", "1", "secretkey", "secretarg"},
+		// ... in the array part of the globals table (table.insert does not consult __newindex)
+		{"EVAL", "table.insert(_G, KEYS[1]); return 1", "1", "secretkey", "secretarg"},
+		// ... or in a replacement of an existing global
+		{"EVAL", "os = {stash = ARGV[1]}; return 1", "1", "secretkey", "secretarg"},
 	}
 	if job.Shard == 0 {
 		x := runExec(job, freezeAllBut(), func(x *Exec) {
@@ -496,6 +506,20 @@ func checkC18Box(job *Job, res *Result) {
 			// and the observable consequence: a later script must not see them
 			if r := c.Do("EVAL", "return {KEYS and KEYS[1] or 'none', ARGV and ARGV[1] or 'none'}", "0"); strings.Contains(r.String(), "secret") {
 				res.Violate("C18/keys-argv-survive-the-call", fmt.Sprintf("after [%s] a fresh EVAL with no keys/args sees %s", strings.Join(names, " ; "), r), map[string]any{"sequence": names})
+			}
+			for _, flavour := range []string{"EVAL", "EVALRO", "EVALNA"} {
+				if r := c.Do(flavour, "return {KEYS[1] or 'none', ARGV[1] or 'none', ARGV[2] or 'none', #KEYS, #ARGV}", "0"); strings.Contains(r.String(), "secret") || !strings.Contains(r.String(), ":0 :0") {
+					res.Violate("C18/keys-argv-survive-the-call:empty-tables", fmt.Sprintf("after [%s] an %s with no keys/args sees %s", strings.Join(names, " ; "), flavour, r), map[string]any{"sequence": names})
+				}
+				if r := c.Do(flavour, "return {tostring(string.stash), tostring(math.stash and math.stash[1])}", "0"); strings.Contains(r.String(), "secret") {
+					res.Violate("C18/keys-argv-survive-the-call:library-table", fmt.Sprintf("after [%s] an %s reads the arguments of an earlier call from a library table: %s", strings.Join(names, " ; "), flavour, r), map[string]any{"sequence": names})
+				}
+				if r := c.Do(flavour, "return tostring(_G[1])", "0"); strings.Contains(r.String(), "secret") {
+					res.Violate("C18/keys-argv-survive-the-call:globals-array-part", fmt.Sprintf("after [%s] an %s reads the arguments of an earlier call from _G[1]: %s", strings.Join(names, " ; "), flavour, r), map[string]any{"sequence": names})
+				}
+				if r := c.Do(flavour, "return tostring(os.stash)", "0"); strings.Contains(r.String(), "secret") {
+					res.Violate("C18/keys-argv-survive-the-call:replaced-global", fmt.Sprintf("after [%s] an %s reads the arguments of an earlier call from a replaced global: %s", strings.Join(names, " ; "), flavour, r), map[string]any{"sequence": names})
+				}
 			}
 			if r := c.Do("SCAN", "k1", "WHEREEVAL", "return (KEYS ~= nil and KEYS[1] == 'secretkey')", "0", "IDS"); strings.Contains(r.String(), `"a"`) {
 				res.Violate("C18/keys-argv-survive-the-call:whereeval", fmt.Sprintf("after [%s] a WHEREEVAL script reads KEYS[1] == 'secretkey' of an earlier call", strings.Join(names, " ; ")), map[string]any{"sequence": names})
